@@ -153,6 +153,21 @@ type Analysis struct {
 	Dead    []*ssa.Function
 	localAt map[ssa.Instruction]Set
 	localDone map[*ssa.Function]bool
+	// extraMust: locks a synchronous callback closure is known to run under: those held where it
+	// was passed (the callee only adds locks), plus the mode a reviewed lock wrapper takes.
+	extraMust map[*ssa.Function]Set
+	// Wrappers: functions that take a lock in a mode chosen by a constant bool argument and then
+	// call their func argument (verified, not assumed).
+	Wrappers []Wrapper
+	WrapperProblems []string
+	CallbackSites   int
+}
+
+// Wrapper describes "if flag { L.Lock() } else { L.RLock() }; …; fn(...)".
+type Wrapper struct {
+	Fn        string // function key
+	BoolParam string
+	Lock      string
 }
 
 // dead: no in-edge in the whole-program call graph, and not reachable by a user of the
@@ -429,8 +444,181 @@ func New(p *ir.Program) *Analysis {
 
 func (a *Analysis) inModule(fn *ssa.Function) bool { return fn != nil && fn.Blocks != nil && a.P.InModule(fn) }
 
-// Run computes the fixpoint.
+// Run computes the fixpoint, then refines the entry state of synchronous callback closures
+// with the locks held where they were passed, and iterates until stable.
 func (a *Analysis) Run() {
+	a.extraMust = map[*ssa.Function]Set{}
+	for round := 0; round < 4; round++ {
+		a.entry = map[*ssa.Function]*state{}
+		a.prov = map[*ssa.Function]map[string]prov{}
+		a.Edges, a.Acq, a.Waits, a.Unres, a.Dead = nil, nil, nil, nil, nil
+		a.Classes, a.ExtCalls, a.Imbalanced = map[string]int{}, map[string]int{}, map[*ssa.Function]string{}
+		a.rootSet, a.goTargets = map[*ssa.Function]bool{}, map[*ssa.Function]bool{}
+		a.localDone, a.collect = nil, false
+		a.runOnce()
+		if !a.refineCallbacks() {
+			break
+		}
+	}
+}
+
+// refineCallbacks recomputes extraMust; reports whether it changed.
+func (a *Analysis) refineCallbacks() bool {
+	nw := map[*ssa.Function]Set{}
+	a.WrapperProblems = nil
+	a.CallbackSites = 0
+	wrap := map[*ssa.Function]Wrapper{}
+	for _, w := range a.Wrappers {
+		fn := a.P.Func(w.Fn)
+		if fn == nil {
+			a.WrapperProblems = append(a.WrapperProblems, "lock wrapper not found: "+w.Fn)
+			continue
+		}
+		if why := a.verifyWrapper(fn, w); why != "" {
+			a.WrapperProblems = append(a.WrapperProblems, w.Fn+": "+why)
+			continue
+		}
+		wrap[fn] = w
+	}
+	type use struct{ must Set }
+	uses := map[*ssa.Function][]Set{}
+	other := map[*ssa.Function]bool{} // closure used in some other way (stored, returned, go, defer…)
+	for _, fn := range a.P.Funcs {
+		for _, b := range fn.Blocks {
+			for _, in := range b.Instrs {
+				mc, ok := in.(*ssa.MakeClosure)
+				if !ok {
+					continue
+				}
+				cl, ok := mc.Fn.(*ssa.Function)
+				if !ok {
+					continue
+				}
+				for _, ref := range *mc.Referrers() {
+					call, isCall := ref.(*ssa.Call)
+					if !isCall {
+						other[cl] = true
+						continue
+					}
+					if call.Call.Value == ssa.Value(mc) {
+						// immediately invoked: ordinary call edge, already precise
+						other[cl] = true
+						continue
+					}
+					callee := call.Call.StaticCallee()
+					if callee == nil || !a.inModule(callee) {
+						other[cl] = true
+						continue
+					}
+					st := a.at[call]
+					if st == nil || st.top {
+						other[cl] = true
+						continue
+					}
+					m := st.must.clone()
+					if w, ok := wrap[callee]; ok {
+						// mode chosen by the constant flag
+						for i, prm := range callee.Params {
+							if prm.Name() == w.BoolParam && i < len(call.Call.Args) {
+								if k, ok := call.Call.Args[i].(*ssa.Const); ok && k.Value != nil {
+									if k.Value.String() == "true" {
+										m[w.Lock] = W
+									} else if m[w.Lock] < R {
+										m[w.Lock] = R
+									}
+								}
+							}
+						}
+					}
+					a.CallbackSites++
+					uses[cl] = append(uses[cl], m)
+				}
+			}
+		}
+	}
+	for cl, ms := range uses {
+		if other[cl] || a.goTargets[cl] {
+			continue
+		}
+		meet := ms[0].clone()
+		for _, m := range ms[1:] {
+			for k, v := range meet {
+				if m[k] < v {
+					if m[k] == None {
+						delete(meet, k)
+					} else {
+						meet[k] = m[k]
+					}
+				}
+			}
+		}
+		if len(meet) > 0 {
+			nw[cl] = meet
+		}
+	}
+	changed := len(nw) != len(a.extraMust)
+	for k, v := range nw {
+		if !equal(v, a.extraMust[k]) {
+			changed = true
+		}
+	}
+	a.extraMust = nw
+	return changed
+}
+
+// verifyWrapper checks the reviewed shape: the lock is write-locked exactly on the true side of a
+// branch on the bool parameter and read-locked on its false side, and is released only by defers.
+func (a *Analysis) verifyWrapper(fn *ssa.Function, w Wrapper) string {
+	var flag *ssa.Parameter
+	for _, p := range fn.Params {
+		if p.Name() == w.BoolParam {
+			flag = p
+		}
+	}
+	if flag == nil {
+		return "bool parameter " + w.BoolParam + " not found"
+	}
+	nW, nR := 0, 0
+	for _, b := range fn.Blocks {
+		for _, in := range b.Instrs {
+			call, ok := in.(*ssa.Call)
+			if !ok {
+				continue
+			}
+			op, recv := lockOp(call.Common())
+			if op == "" {
+				continue
+			}
+			cls := a.ClassOf(recv)
+			if len(cls) != 1 || cls[0] != w.Lock {
+				continue
+			}
+			// the block must be the direct successor of an If on the flag
+			if len(b.Preds) != 1 {
+				return "lock operation not directly under the branch on " + w.BoolParam
+			}
+			iff, ok := b.Preds[0].Instrs[len(b.Preds[0].Instrs)-1].(*ssa.If)
+			if !ok || iff.Cond != ssa.Value(flag) {
+				return "lock operation not directly under the branch on " + w.BoolParam
+			}
+			onTrue := b.Preds[0].Succs[0] == b
+			switch {
+			case op == "Lock" && onTrue:
+				nW++
+			case op == "RLock" && !onTrue:
+				nR++
+			default:
+				return "unexpected " + op + " on the " + map[bool]string{true: "true", false: "false"}[onTrue] + " side"
+			}
+		}
+	}
+	if nW != 1 || nR != 1 {
+		return "expected one Lock (flag true) and one RLock (flag false)"
+	}
+	return ""
+}
+
+func (a *Analysis) runOnce() {
 	p := a.P
 	// roots: no in-module synchronous caller, or user-declared
 	called := map[*ssa.Function]bool{}
@@ -565,6 +753,13 @@ func (a *Analysis) flow(fn *ssa.Function, onCall callFn, record bool) {
 	}
 	in := make([]*state, len(fn.Blocks))
 	in[0] = ent.clone()
+	if ex := a.extraMust[fn]; ex != nil && !in[0].top {
+		for k, m := range ex {
+			if in[0].must[k] < m {
+				in[0].must[k] = m
+			}
+		}
+	}
 	// collect defers (in order)
 	var defers []*ssa.Defer
 	for _, b := range fn.Blocks {
